@@ -1,5 +1,5 @@
 import XjsModel.Proofs.ParserTokens
-import XjsModel.Spec.TreeShape
+import XjsModel.Spec.Comments
 /-
   Anchors (C15): a parse step that records no error returns a node whose first token — the token its comments
   travel on — is the token the parser stood on when the step began.
@@ -7,31 +7,6 @@ import XjsModel.Spec.TreeShape
 namespace Xjs
 set_option linter.unusedSimpArgs false
 set_option linter.unusedVariables false
-
-mutual
-  /-- the first token of a node in source order: where the trivia in front of the node is attached -/
-  def Expr.firstTok : Expr → Option Token
-    | .none => Option.none
-    | .ident id => some id.tok
-    | .int tok | .float tok | .null tok => some tok
-    | .str tok _ | .raw tok _ | .bool tok _ => some tok
-    | .letE tok _ _ => some tok
-    | .binary _ l _ _ => l.firstTok
-    | .unary tok _ _ => some tok
-    | .postfix _ l _ => l.firstTok
-    | .group tok _ _ => some tok
-    | .call _ f _ => f.firstTok
-    | .member _ o _ _ => o.firstTok
-    | .assign _ l _ => l.firstTok
-    | .compound _ l _ _ => l.firstTok
-    | .func tok _ _ _ => some tok
-    | .array tok _ _ => some tok
-    | .object tok _ _ => some tok
-end
-def Stmt.firstTok : Stmt → Option Token
-  | .none => Option.none
-  | .letS tok _ _ | .ret tok _ | .funcD tok _ _ _ | .block tok _ _ | .ifS tok _ _ _ | .whileS tok _ _ | .forS tok _ _ _ _ => some tok
-  | .exprS e => e.firstTok
 
 theorem anc_parseFunctionParameters (st : PS) (x : List Ident) (st' : PS) (h : parseFunctionParameters st = some (x, st')) :
     st.elen ≤ st'.elen ∧ (True ∨ st.elen < st'.elen) := ⟨elen_parseFunctionParameters h, Or.inl trivial⟩
